@@ -1,5 +1,6 @@
 import Driver.Codec
 import DfModel.Join
+import DfModel.JoinSchema
 
 open Lean
 namespace Df.Ops
@@ -54,5 +55,15 @@ def opJoin (j : Json) : R Json := do
   | _ =>
     let d := Join.dedupRows fields ix
     return Json.mkObj [("dedup", Json.arr (d.map (fun e => Json.mkObj [("key", e.1), ("extra", encExtra e.2)])).toArray)]
+
+/-- `joinschema`: the fields of the join target after `process_target_resource` -/
+def opJoinSchema (j : Json) : R Json := do
+  let src ← (← arr j "source_fields").toList.mapM decField
+  let tgt ← (← arr j "target_fields").toList.mapM decField
+  let specs ← (← arr j "specs").toList.mapM (fun s => do
+    return { name := ← str s "name", src := ← str s "src", agg := ← str s "agg" : Join.JSpec })
+  match Join.joinTargetFields src specs tgt with
+  | .ok fs => return Json.mkObj [("fields", Json.arr (fs.map encField).toArray)]
+  | .error e => return encErr e
 
 end Df.Ops
